@@ -39,10 +39,6 @@ def scale_of(l):
     return s
 
 
-def cast_kind(grp):
-    return 'submanifold_cast' if 'S[' in grp else 'cast'
-
-
 class C07:
     id = 'C07'
     props_files = ['SmoothProps/C07.lean']
@@ -59,6 +55,9 @@ class C07:
                    'binary operations on std::vector / SubManifold arguments of different shape are compared with the model only where the C++ is defined']
 
     # ------------------------------------------------------------------ generation / evaluation
+    def prebuild(self):
+        vlib.build_harnesses(specs())
+
     def gen_lines(self, ctx, n):
         bins = vlib.build_harnesses(specs())
         lines = []
@@ -114,24 +113,6 @@ class C07:
             s['excused_by_sensitivity'] += v['excused_by_sensitivity']
         breaks += t1['breaks']
 
-        # the SubManifold cast is modelled with the argument order of the pinned code; a repaired
-        # implementation is recognised (intended order) instead of being reported as a broken tie
-        cast_state = 'as modelled (origin and value swapped)'
-        cast_breaks = [b for b in breaks if Line(b['line']).op == 'man_cast' and 'S[' in Line(b['line']).grp]
-        if cast_breaks:
-            top = [b for b in cast_breaks if Line(b['line']).grp.startswith('S[')]
-            ok_intended = bool(top)
-            if top:
-                reqs = ['man_cast_intended ' + ' '.join(Line(b['line']).request().split()[1:]) for b in top]
-                reps = vlib.run_driver(reqs)
-                for b, rep in zip(top, reps):
-                    l = Line(b['line'])
-                    if rep.startswith(('ERR', 'THROW')) or vlib.diff_ulp(l.outs, rep.split(), l.prec, l.ins)[0] > T1_TOL_ULP:
-                        ok_intended = False
-            if ok_intended:
-                cast_state = 'intended order (the pinned defect is repaired in this tree)'
-                breaks = [b for b in breaks if b not in cast_breaks]
-
         by = {}
         for b in breaks:
             l = Line(b['line'])
@@ -179,9 +160,8 @@ class C07:
                     if not l.grp.startswith('A['):
                         add(l, 'cast_throws', None, None, 'cast to the same scalar type throws')
                 elif cast_repr != 1.0 or cast_beh != 1.0:
-                    add(l, cast_kind(l.grp), None, None,
-                        'cast to the same scalar type does not behave identically to the original'
-                        + (' (origin m0 and value m come back swapped)' if 'S[' in l.grp else ''))
+                    add(l, 'cast', None, None,
+                        'cast to the same scalar type does not behave identically to the original')
                 if len(samples) < 8 and n_aud % 131 == 1:
                     samples.append({'line': l.raw[:240], 'errors': o[:3], 'tolerance': tol})
             elif l.op == 'aud_sub':
@@ -220,7 +200,6 @@ class C07:
                'fixed_dim_subsets_covered': {k: len(v) for k, v in subsets.items()},
                't1_lines': len(man), 't1_exception_lines': n_throw, 't1_stats': stats, 't1_breaks': len(breaks),
                'audit_samples': n_aud, 'audit_worst_relative': worst,
-               'submanifold_cast_impl': cast_state,
                'traces_validated_against_impl': len(man)}
         return {'coverage': cov, 'findings': findings, 'broken': broken}
 
